@@ -1490,7 +1490,10 @@ fn run_held_client(focus: &'static str, seed: u64, index: u64) -> CaseOut {
         weight_mode: if rng.chance(1, 2) { WeightMode::Default } else { WeightMode::Custom }, hash_mode: HashMode::Default, start_ns: rt::START_NS };
     let pipelined = index % 4 == 3;
     let mut sutcfg = sutcfg;
-    if pipelined { sutcfg.cmd_buf = 64; } // the burst must fit behind the held worker
+    // the burst must fit behind the held worker; every second burst is sized so that the queue is exactly FULL when its last upsert is sent
+    let burst = 2 + (index / 8) % 3;
+    let tight = pipelined && (index / 4) % 2 == 1;
+    if pipelined { sutcfg.cmd_buf = if tight { (burst - 1) as usize } else { 64 }; }
     let site = CLIENT_SITES[((index / 4) % CLIENT_SITES.len() as u64) as usize];
     let initial = (index / 24) % 3; // 0 absent, 1 live, 2 live with a TTL
     // choose an operation that actually passes the armed site
@@ -1527,16 +1530,39 @@ fn run_held_client(focus: &'static str, seed: u64, index: u64) -> CaseOut {
         dummy.write(&sut.cache, WriteOp::Delete { key: 77 });
         if sched().wait_holding(Site::WorkerDequeued, Duration::from_secs(5)) {
             window_entered = true;
-            let n = rng.range(2, 4);
+            let n = burst;
             let mut last = 50;
+            let mut helper = None;
             for i in 0..n {
                 // the last one asks for the weight the key had before the burst: still a change with respect to the queued one before it
                 let weight = if i == n - 1 { 50 } else { 50 + 10 * (i as i64 + 1) };
                 let value = main_client.token(key);
-                main_client.write(&sut.cache, WriteOp::Upsert { key, value: if rng.chance(1, 2) { Some(value) } else { None }, weight: Some(weight), ttl: None, remove_ttl: false });
+                let op = WriteOp::Upsert { key, value: if rng.chance(1, 2) { Some(value) } else { None }, weight: Some(weight), ttl: None, remove_ttl: false };
+                if tight && i == n - 1 {
+                    // the queue (n - 1 slots) is full now: this send has to wait for the worker, which is why another thread makes the call
+                    let cache = sut.cache.clone();
+                    let entered = Arc::new(AtomicBool::new(false));
+                    let flag = entered.clone();
+                    let mut crew: rt::Crew<Vec<OpRec>> = rt::Crew::new();
+                    crew.spawn(move || { let mut client = Client::new(6); flag.store(true, Ordering::SeqCst); client.write(&cache, op); client.settle_all(&marks); client.log });
+                    let _ = rt::poll_until(Duration::from_secs(2), || entered.load(Ordering::SeqCst));
+                    // give the call the time to reach its send (not a verdict: released too early, the queue simply was not full)
+                    thread::sleep(Duration::from_millis(2));
+                    if sut.cache.verif_command_queue_len() >= (n - 1) as usize { counts.inc("weight_upserts_sent_into_an_exactly_full_queue"); }
+                    helper = Some(crew);
+                } else {
+                    main_client.write(&sut.cache, op);
+                }
                 last = weight;
             }
             expected_final_weight = Some(last);
+            sched().release(Site::WorkerDequeued);
+            if let Some(crew) = helper {
+                match crew.join("the helper sending into a full queue") {
+                    Ok(logs) => for log in logs { all_logs.extend(log); },
+                    Err(waited) => push_stuck(&mut findings, "a weight upsert sent into a full queue", waited, &case),
+                }
+            }
         }
         sched().release(Site::WorkerDequeued);
         main_client.settle_all(&marks);
